@@ -304,6 +304,7 @@ def _select_fixed():
               ndset="wsum", ndset_w=[1.0, 0.5], ndset_wt=-1.0),
             v(ntrait=2, nobj=2, bv=[[8, 1], [24, 2], [16, 5], [40, 0], [0, 9], [32, 3]], u=[[1, 0], [2, 1], [-3, 2], [4, 0], [0, 1]], algo="stub",
               ndset="wsum", ndset_w=[0.0, 0.0], front_order="rev"),
+            v(nmating=0), v(nprogeny=[3, 0]),
             v(family="ohv", enc="mate", unique=False), v(family="ohv", enc="mate", unique=True, nparent=3, ncross=2), v(family="uc", enc="mate", unique=True)]
 
 def gen_cases(rng, tier):
@@ -624,7 +625,7 @@ def _split_draws(draws, first):
     if any(d[0] != "shuffle" for d in draws[1:]): return None
     return draws[0], draws[1], [d[2] for d in draws[2:]]
 
-def _cfg_term(cls, nc, npar, decn, draws, order=None, xmap=None):
+def _cfg_term(cls, nc, npar, decn, draws, order=None, xmap=None, dvar=None):
     """(Coq term computing the model's xconfig : option (list Z) | option (list (list Z)), side condition text) or None"""
     t = nc * npar
     if cls in ("subset", "integer", "binary"):
@@ -638,14 +639,14 @@ def _cfg_term(cls, nc, npar, decn, draws, order=None, xmap=None):
         re = (t % nopt) if nopt else 0
         if ch[1] != nopt or ch[2] != re or ch[3] is not False or ch[4] is not False or sh[1] != t: return None
         fn = {"subset": "cfg_subset", "integer": "cfg_integer", "binary": "cfg_binary"}[cls]
-        return "(%s %s %s %s %s %s %s)" % (fn, E.nat(nc), E.nat(npar), _zl(decn), _nl(ch[5]), _nl(sh[2]), _nll(pms))
+        return "(%s %s %s %s %s %s %s)" % (fn, E.nat(nc), E.nat(npar), dvar or _zl(decn), _nl(ch[5]), _nl(sh[2]), _nll(pms))
     if cls == "real":
         sp = _split_draws(draws, "uniform")
         if sp is None: return None
         un, sh, pms = sp
         if _fh(un[1]) != 0.0 or sh[1] != t: return None
         p = E.lst(decn, E.fhex)
-        core = "(cfg_real_f %s %s %s %s %s %s %s)" % (E.nat(nc), E.nat(npar), p, _nl(order), E.fhex(_fh(un[3])), _nl(sh[2]), _nll(pms))
+        core = "(cfg_real_f %s %s %s %s %s %s %s)" % (E.nat(nc), E.nat(npar), dvar or p, _nl(order), E.fhex(_fh(un[3])), _nl(sh[2]), _nll(pms))
         side = "PrimFloat.eqb (sus_dist_f (fsum %s) %s) %s && order_ok (map f2q %s) %s" % (p, E.nat(t), E.fhex(_fh(un[2])), p, _nl(order))
         return core, side
     if cls == "mate":
@@ -653,7 +654,7 @@ def _cfg_term(cls, nc, npar, decn, draws, order=None, xmap=None):
         ch, sh, sh2 = draws
         nopt = len(decn); re = (nc % nopt) if nopt else 0
         if ch[1] != nopt or ch[2] != re or ch[3] is not False or ch[4] is not False or sh[1] != nc or sh2[1] != nc: return None
-        return "(cfg_mate %s %s %s %s %s %s %s)" % (E.nat(nc), E.nat(npar), _zl(decn), E.lst(xmap, _zl), _nl(ch[5]), _nl(sh[2]), _nl(sh2[2]))
+        return "(cfg_mate %s %s %s %s %s %s %s)" % (E.nat(nc), E.nat(npar), dvar or _zl(decn), E.lst(xmap, _zl), _nl(ch[5]), _nl(sh[2]), _nl(sh2[2]))
     return None
 
 def _flat(x): return [v for r in x for v in r]
@@ -732,7 +733,7 @@ def _emit_select(case, out):
     if case["nobj"] == 1:
         parts.append("%s %s (Some %s)" % (eqx, core, want_xc))
         if soln is not None and (len(soln) != 1 or soln[0] != out["decn"]): return "false"
-        if case["algo"] in ("sorting", "sortinghc") and "crit" in out:
+        if case["algo"] in ("sorting", "sortinghc") and "crit" in out and case["family"] != "ocs":
             cz = _crit_ints(out["crit"]); k = out["ndecn"]
             if len(set(cz)) == len(cz):
                 parts.append("onatl_eqb (sort_select %s %s) (Some %s)" % (_zl(cz), E.nat(k), _nl(decn)))
@@ -753,8 +754,8 @@ def _emit_select(case, out):
             decns = E.lst(soln, dl)
             # the configuration as a function of the chosen decision: replace the literal decision inside the term by the bound variable
             lit = E.lst(decn, E.fhex) if real else _zl(decn)
-            if core.count(lit) != 1: return "false"
-            fcfg = "(fun d => %s)" % core.replace(lit, "d")
+            tmd = _cfg_term(enc, nc, npar, decn, cdraws, out.get("order"), out.get("xmap"), dvar="d")
+            fcfg = "(fun d => %s)" % (tmd[0] if real else tmd)
             deq = "fl_eqb7 d %s" % lit if real else "zl_eqb d %s" % lit
             ceq = ("zll_eqb c %s" if enc == "mate" else "zl_eqb c %s") % want_xc
             parts.append("match select_mo %s (fun _ => %s) %s %s %s with Some (d, c) => %s && %s | None => false end"
@@ -991,19 +992,22 @@ def _pred_select(case, out):
         elif rl and fam != "random":
             pi = case["relabel"]
             crit2 = [F(_fh(h)) for h in rl["crit"]]
+            close = lambda a, b: abs(a - b) <= F(1, 10 ** 9) * (1 + abs(b))
+            sc = sorted(crit)
+            distinct = all(not close(sc[i], sc[i + 1]) for i in range(len(sc) - 1))
             if enc == "subset":
-                if crit2 != [crit[pi[i]] for i in range(len(pi))]: bad.append("criterion of the relabelled population is not the relabelled criterion")
-                if len(set(crit)) == len(crit):
+                if not all(close(a, crit[pi[i]]) for i, a in enumerate(crit2)): bad.append("criterion of the relabelled population is not the relabelled criterion")
+                if distinct:
                     if sorted(pi[d] for d in rl["decn"]) != sorted(decn): bad.append("relabelled run chose %r = original candidates %r, original run chose %r" % (rl["decn"], sorted(pi[d] for d in rl["decn"]), sorted(decn)))
-                elif sorted(crit2[d] for d in rl["decn"]) != chosen: bad.append("relabelled run chose other criterion values")
+                elif not all(close(a, b) for a, b in zip(sorted(crit2[d] for d in rl["decn"]), chosen)): bad.append("relabelled run chose other criterion values")
             else:
-                inv = {v: i for i, v in enumerate(pi)}
                 # cross d2 of the relabelled map consists of original candidates pi[.]
                 orig = lambda d2: tuple(sorted(pi[p] for p in rl["xmap"][d2]))
                 mine = sorted(tuple(sorted(xmap[d])) for d in decn)
                 cmap = {tuple(sorted(r)): crit[i] for i, r in enumerate(xmap)}
                 vals2 = sorted(cmap[orig(d2)] for d2 in rl["decn"])
-                if len(set(crit)) == len(crit):
+                if not all(close(a, b) for a, b in zip(vals2, chosen)): bad.append("relabelled run chose crosses with other criterion values")
+                if distinct:
                     if sorted(orig(d2) for d2 in rl["decn"]) != mine: bad.append("relabelled run chose crosses %r, original run %r" % (sorted(orig(d2) for d2 in rl["decn"]), mine))
     if out.get("post_draws"): bad.append("draws after select() returned")
     return bad
